@@ -150,6 +150,7 @@ def main(argv=None) -> int:
     undecided: List[str] = []
     named: Dict[str, Dict[str, Any]] = {}
     violations = []
+    continue_errors: List[str] = []
     unknown_obs: List[Any] = []
     known_hits: Dict[str, List[Any]] = {}
     solver_ms = 0.0
@@ -176,7 +177,7 @@ def main(argv=None) -> int:
         if not r.errors and not r.undecided:
             for k, v in sorted(r.covers.items()):
                 if k.endswith(".continues") and not v:
-                    errors.append(f"vacuity: no path of {r.unit} continues after the call {k.split('.call.', 1)[1][:-10]} (the callee's contract contradicts the state at every call)")
+                    continue_errors.append(f"vacuity: no path of {r.unit} continues after the call {k.split('.call.', 1)[1][:-10]} (the callee's contract contradicts the state at every call)")
         for ob in r.obligations:
             if ob.props and prop not in ob.props:
                 continue
@@ -223,6 +224,11 @@ def main(argv=None) -> int:
             violations.append((unit, ob))
         else:
             undecided.append(f"{ob.name}: solver returned unknown at {ob.where} [{' '.join(ob.path)}]")
+
+    # a callee whose own postcondition fails (a violation reported below) contradicts its callers'
+    # state: that is a consequence of the violation, not a vacuous contract
+    if not violations:
+        errors.extend(continue_errors)
 
     # baseline obligation count (vacuity: contracts silently generating fewer obligations)
     base_path = os.path.join(VERIF, "contracts", "baseline.json")
